@@ -315,4 +315,509 @@ theorem exact_affineLeq : Exact .affineLeq := by
   · have hd := Box.nonempty_get hB' k hk
     exact h1 k hk _ ⟨hd, Int.le_refl _⟩
 
+/-! ### affine_geq is affine_leq on the negated parameters -/
+
+def negL (cs : List Int) : List Int := cs.map (fun c => -c)
+/-- `Σ c x ≥ a` as `Σ (-c) x ≤ -a` -/
+def negPs (ps : List Int) : List Int := negL ps.dropLast ++ [-(ps.getLastD 0)]
+
+theorem minTerm_neg (c : Int) (d : Dom) : minTerm (-c) d = - maxTerm c d := by
+  unfold minTerm maxTerm
+  by_cases hc : c > 0
+  · have : ¬ (-c > 0) := by omega
+    simp only [hc, this, if_true, if_false, Int.neg_mul]
+  · by_cases h0 : c = 0
+    · simp [h0]
+    · have : -c > 0 := by omega
+      simp only [hc, this, if_true, if_false, Int.neg_mul]
+
+theorem maxTerm_neg (c : Int) (d : Dom) : maxTerm (-c) d = - minTerm c d := by
+  unfold minTerm maxTerm
+  by_cases hc : c > 0
+  · have : ¬ (-c > 0) := by omega
+    simp only [hc, this, if_true, if_false, Int.neg_mul]
+  · by_cases h0 : c = 0
+    · simp [h0]
+    · have : -c > 0 := by omega
+      simp only [hc, this, if_true, if_false, Int.neg_mul]
+
+theorem sumMinC_neg : ∀ (cs : List Int) (B : Box), sumMinC (negL cs) B = - sumMaxC cs B
+  | [], _ => by simp [negL, sumMinC, sumMaxC]
+  | _ :: _, [] => by simp [negL, sumMinC, sumMaxC]
+  | c :: cs, d :: ds => by
+    have := sumMinC_neg cs ds
+    simp only [negL, List.map_cons, sumMinC, sumMaxC, minTerm_neg] at *
+    omega
+
+theorem sumMaxC_neg : ∀ (cs : List Int) (B : Box), sumMaxC (negL cs) B = - sumMinC cs B
+  | [], _ => by simp [negL, sumMinC, sumMaxC]
+  | _ :: _, [] => by simp [negL, sumMinC, sumMaxC]
+  | c :: cs, d :: ds => by
+    have := sumMaxC_neg cs ds
+    simp only [negL, List.map_cons, sumMinC, sumMaxC, maxTerm_neg] at *
+    omega
+
+theorem dot_neg : ∀ (cs t : List Int), dot (negL cs) t = - dot cs t
+  | [], _ => by simp [negL, dot]
+  | _ :: _, [] => by simp [negL, dot]
+  | c :: cs, x :: xs => by
+    have := dot_neg cs xs
+    simp only [negL, List.map_cons, dot, Int.neg_mul] at *
+    omega
+
+theorem geqPrune_eq (s c : Int) (d : Dom) : geqPrune s c d = leqPrune (-s) (-c) d := by
+  unfold geqPrune leqPrune
+  by_cases h0 : c = 0
+  · simp [h0]
+  · by_cases hc : c > 0
+    · have h1 : ¬ (-c = 0) := by omega
+      have h2 : ¬ (-c > 0) := by omega
+      simp only [h0, hc, h1, h2, if_true, if_false, Int.neg_neg]
+    · have h1 : ¬ (-c = 0) := by omega
+      have h2 : -c > 0 := by omega
+      simp only [h0, hc, h1, h2, if_true, if_false]
+
+theorem pruneWith_geq (s : Int) : ∀ (cs : List Int) (B : Box),
+    pruneWith (geqPrune s) cs B = pruneWith (leqPrune (-s)) (negL cs) B
+  | [], _ => by simp [negL, pruneWith]
+  | _ :: _, [] => by simp [negL, pruneWith]
+  | c :: cs, d :: ds => by
+    have := pruneWith_geq s cs ds
+    simp only [negL, List.map_cons, pruneWith, geqPrune_eq] at *
+    rw [this]
+
+theorem affineGeqCore_eq (cs : List Int) (a : Int) (B : Box) :
+    affineGeqCore cs a B = affineLeqCore (negL cs) (-a) B := by
+  simp only [affineGeqCore, affineLeqCore, sumMinC_neg, sumMaxC_neg, pruneWith_geq]
+  have e : -a - -sumMaxC cs B = -(a - sumMaxC cs B) := by omega
+  have c1 : (-a - -sumMinC cs B ≥ 0) ↔ (a - sumMinC cs B ≤ 0) := by omega
+  have c2 : (-(a - sumMaxC cs B) < 0) ↔ (a - sumMaxC cs B > 0) := by omega
+  simp only [e, c1, c2]
+
+theorem negPs_dropLast (ps : List Int) : (negPs ps).dropLast = negL ps.dropLast := by
+  simp [negPs]
+
+theorem negPs_last (ps : List Int) : (negPs ps).getLastD 0 = -(ps.getLastD 0) := by
+  simp [negPs]
+
+theorem runAlg_affineGeq (ps : List Int) (B : Box) :
+    runAlg .affineGeq ps B = .ok (affineGeqCore ps.dropLast (ps.getLastD 0) B) := rfl
+
+theorem runAlg_geq_eq (ps : List Int) (B : Box) :
+    runAlg .affineGeq ps B = runAlg .affineLeq (negPs ps) B := by
+  rw [runAlg_affineGeq, runAlg_affineLeq, negPs_dropLast, negPs_last, affineGeqCore_eq]
+
+theorem rel_geq (ps t : List Int) : rel .affineGeq ps t ↔ rel .affineLeq (negPs ps) t := by
+  simp only [rel, negPs_dropLast, negPs_last, dot_neg]; omega
+
+theorem contract_geq {ps : List Int} {B : Box} (h : Contract .affineGeq ps B) :
+    Contract .affineLeq (negPs ps) B := by
+  simp only [Contract] at *
+  simp [negPs, negL]; omega
+
+theorem getI_negL (cs : List Int) (k : Nat) : getI (negL cs) k = - getI cs k := by
+  simp only [getI, negL, List.getD_eq_getElem?_getD, List.getElem?_map]
+  cases cs[k]? <;> simp
+
+theorem mask_geq (ps : List Int) (n k : Nat) :
+    maskAlg .affineGeq ps n k = maskAlg .affineLeq (negPs ps) n k := by
+  simp only [maskAlg, maskAffineGeq, maskAffineLeq, negPs_dropLast, getI_negL]
+  by_cases h1 : getI ps.dropLast k < 0
+  · rw [if_pos h1, if_neg (by omega), if_pos (by omega)]
+  · by_cases h2 : getI ps.dropLast k > 0
+    · rw [if_neg h1, if_pos h2, if_pos (by omega)]
+    · rw [if_neg h1, if_neg h2, if_neg (by omega), if_neg (by omega)]
+
+theorem sound_affineGeq : Sound .affineGeq := by
+  intro ps B st B' hc hne hrun
+  rw [runAlg_geq_eq] at hrun
+  have := sound_affineLeq (negPs ps) B st B' (contract_geq hc) hne hrun
+  simp only [rel_geq]
+  exact this
+
+theorem entailOk_affineGeq : EntailOk .affineGeq := by
+  intro ps B B' hc hne hrun t ht
+  rw [runAlg_geq_eq] at hrun
+  rw [rel_geq]
+  exact entailOk_affineLeq (negPs ps) B B' (contract_geq hc) hne hrun t ht
+
+theorem groundOk_affineGeq : GroundOk .affineGeq := by
+  intro ps B st B' t hc hne hrun hst hB'
+  rw [runAlg_geq_eq] at hrun
+  show rel .affineGeq ps t
+  rw [rel_geq]
+  exact groundOk_affineLeq (negPs ps) B st B' t (contract_geq hc) hne hrun hst hB'
+
+theorem contractMono_affineGeq : ContractMono .affineGeq := by
+  intro ps B B' hc hle
+  simp only [Contract] at *
+  rw [Box.le_length hle]; exact hc
+
+theorem safe_affineGeq : Safe .affineGeq := fun ps B _ _ => ⟨_, runAlg_affineGeq ps B⟩
+
+theorem trigOk_affineGeq : TrigOk .affineGeq := by
+  intro ps B st B' E hc hne hrun hst hle hne' hq
+  rw [runAlg_geq_eq] at hrun ⊢
+  exact trigOk_affineLeq (negPs ps) B st B' E (contract_geq hc) hne hrun hst hle hne'
+    (fun k hk => by rw [← mask_geq]; exact hq k hk)
+
+theorem exact_affineGeq : Exact .affineGeq := by
+  intro ps B st B' hc hne hrun hst
+  rw [runAlg_geq_eq] at hrun
+  have := exact_affineLeq (negPs ps) B st B' (contract_geq hc) hne hrun hst
+  simp only [rel_geq, runAlg_geq_eq]
+  exact this
+
+/-! ### a mask watching MIN|MAX everywhere makes trigger sufficiency trivial -/
+
+/-- if every position watches MIN and MAX, a quiet sub-box of the result is the input itself,
+    hence (the call being contracting) the result is the input: it was already a fixpoint -/
+theorem trigOk_of_minMax (a : Alg) (hmask : ∀ ps n k, maskAlg a ps n k = Ev.minMax) (hs : Sound a) :
+    TrigOk a := by
+  intro ps B st B' E hc hne hrun hst hle _ hq
+  have hB' := ((hs ps B st B' hc hne hrun).1 hst).1
+  have hlen : E.length = B.length := by rw [Box.le_length hle, Box.le_length hB']
+  have hEB : E = B := by
+    refine Box.ext_get hlen (fun k hk => ?_)
+    have := hq k (hlen ▸ hk)
+    rw [hmask] at this
+    exact eq_of_quiet_minMax this
+  subst hEB
+  have : B' = E := Box.le_antisymm hB' hle
+  subst this
+  exact ⟨st, hrun, hst⟩
+
+/-! ### affine_eq -/
+
+/-- the new domain of a variable with `c ≠ 0`, without floor/ceiling: `v` stays iff it was in the
+    old domain and `c·v` lies between `smin + maxTerm` and `smax + minTerm` -/
+theorem eqPrune_iff (smin smax c : Int) (d : Dom) (v : Int) (h0 : c ≠ 0) :
+    inDom v (eqPrune smin smax c d) ↔
+      inDom v d ∧ smin + maxTerm c d ≤ c * v ∧ c * v ≤ smax + minTerm c d := by
+  unfold eqPrune inDom minTerm maxTerm
+  by_cases hc : c > 0
+  · simp only [h0, hc, if_true, if_false]
+    have e1 : pyDiv smin (-c) = pyDiv (-smin) c := (pyDiv_neg_left smin c).symm
+    have A := le_pyDiv_iff (-smin) c (d.2 - v) hc
+    have B := le_pyDiv_iff smax c (v - d.1) hc
+    rw [Int.mul_sub] at A B
+    rw [e1]
+    omega
+  · have hneg : 0 < -c := by omega
+    simp only [h0, hc, if_false]
+    have e1 : pyDiv (-smax) c = pyDiv smax (-c) := pyDiv_neg_left smax c
+    have A := le_pyDiv_iff smax (-c) (d.2 - v) hneg
+    have B := le_pyDiv_iff (-smin) (-c) (v - d.1) hneg
+    rw [Int.mul_sub] at A B
+    simp only [Int.neg_mul] at A B
+    rw [e1]
+    omega
+
+theorem eqPrune_le (smin smax c : Int) (d : Dom) :
+    d.1 ≤ (eqPrune smin smax c d).1 ∧ (eqPrune smin smax c d).2 ≤ d.2 := by
+  unfold eqPrune
+  split
+  · exact ⟨Int.le_refl _, Int.le_refl _⟩
+  · split <;> simp only <;> omega
+
+theorem pruneWith_eq_le (smin smax : Int) : ∀ (cs : List Int) (B : Box),
+    Box.le (pruneWith (eqPrune smin smax) cs B) B
+  | [], B => by simpa [pruneWith] using Box.le_refl B
+  | _ :: _, [] => by simp [pruneWith, Box.le]
+  | c :: cs, d :: ds => ⟨eqPrune_le smin smax c d, pruneWith_eq_le smin smax cs ds⟩
+
+/-- a solution survives: generalised over `Kmin ≤ dot - sumMaxC` and `dot - sumMinC ≤ Kmax` -/
+theorem eq_keep (Kmin Kmax : Int) : ∀ (cs : List Int) (B : Box) (t : List Int),
+    inBox t B → Kmin ≤ dot cs t - sumMaxC cs B → dot cs t - sumMinC cs B ≤ Kmax →
+    inBox t (pruneWith (eqPrune Kmin Kmax) cs B)
+  | [], B, t, h, _, _ => by simpa [pruneWith] using h
+  | _ :: _, [], [], _, _, _ => by simp [pruneWith, inBox]
+  | c :: cs, d :: ds, x :: xs, h, h1, h2 => by
+    simp only [pruneWith, inBox]
+    simp only [dot, sumMinC, sumMaxC] at h1 h2
+    have := sumMinC_le_dot cs ds xs h.2
+    have := dot_le_sumMaxC cs ds xs h.2
+    have := minTerm_le c d x h.1
+    have := le_maxTerm c d x h.1
+    refine ⟨?_, eq_keep Kmin Kmax cs ds xs h.2 (by omega) (by omega)⟩
+    by_cases h0 : c = 0
+    · simpa [eqPrune, h0] using h.1
+    · rw [eqPrune_iff _ _ _ _ _ h0]
+      exact ⟨h.1, by omega, by omega⟩
+  | _ :: _, [], _ :: _, h, _, _ => by simp [inBox] at h
+  | _ :: _, _ :: _, [], h, _, _ => by simp [inBox] at h
+
+/-- on a box whose first `|cs|` domains are instantiated, the linear form of any tuple of the box
+    is the one the code computes from the lower bounds -/
+theorem dot_of_ground : ∀ (cs : List Int) (B : Box) (t : List Int), inBox t B →
+    Box.isGround (B.take cs.length) = true → dot cs t = dot cs (B.map (·.1))
+  | [], _, _, _, _ => by simp [dot]
+  | _ :: _, [], [], _, _ => by simp [dot]
+  | c :: cs, d :: ds, x :: xs, h, hg => by
+    simp only [List.length_cons, List.take_succ_cons, Box.isGround, List.all_cons, Bool.and_eq_true,
+      Dom.isGround, beq_iff_eq] at hg
+    have ih := dot_of_ground cs ds xs h.2 (by simpa [Box.isGround] using hg.2)
+    have hx : d.1 ≤ x ∧ x ≤ d.2 := h.1
+    have : x = d.1 := by omega
+    simp only [dot, List.map_cons, ih, this]
+  | _ :: _, [], _ :: _, h, _ => by simp [inBox] at h
+  | _ :: _, _ :: _, [], h, _ => by simp [inBox] at h
+
+theorem runAlg_affineEq (ps : List Int) (B : Box) :
+    runAlg .affineEq ps B = .ok (affineEqCore ps.dropLast (ps.getLastD 0) B) := rfl
+
+theorem sound_affineEq : Sound .affineEq := by
+  intro ps B st B' _ hne hrun
+  rw [runAlg_affineEq] at hrun
+  injection hrun with hrun
+  simp only [affineEqCore] at hrun
+  simp only [rel]
+  generalize ps.dropLast = cs at *
+  generalize ps.getLastD 0 = a at *
+  split at hrun
+  · rename_i hs
+    injection hrun with h1 h2; subst h1; subst h2
+    refine ⟨fun h => absurd rfl h, fun _ t ht hrel => ?_⟩
+    have := sumMinC_le_dot cs B t ht
+    have := dot_le_sumMaxC cs B t ht
+    omega
+  · split at hrun
+    · rename_i _ hemp
+      injection hrun with h1 h2; subst h1; subst h2
+      refine ⟨fun h => absurd rfl h, fun _ t ht hrel => ?_⟩
+      have hk := eq_keep (a - sumMaxC cs B) (a - sumMinC cs B) cs B t ht (by omega) (by omega)
+      have hne' : ¬ Box.Nonempty (pruneWith (eqPrune (a - sumMaxC cs B) (a - sumMinC cs B)) cs B) := by
+        rw [← Box.hasEmpty_eq_false_iff]; simp [hemp]
+      exact hne' (nonempty_of_inBox hk)
+    · split at hrun
+      · rename_i _ _ hg
+        injection hrun with h1 h2; subst h1; subst h2
+        refine ⟨fun h => absurd rfl h, fun _ t ht hrel => ?_⟩
+        have hk := eq_keep (a - sumMaxC cs B) (a - sumMinC cs B) cs B t ht (by omega) (by omega)
+        simp only [Bool.and_eq_true, bne_iff_ne, ne_eq] at hg
+        have := dot_of_ground cs _ t hk hg.1
+        exact hg.2 (by rw [← this]; exact hrel)
+      · rename_i _ hemp _
+        injection hrun with h1 h2; subst h1; subst h2
+        refine ⟨fun _ => ⟨pruneWith_eq_le _ _ cs B, ?_, fun t ht hrel => ?_⟩, fun h => by cases h⟩
+        · rw [← Box.hasEmpty_eq_false_iff]; simpa using hemp
+        · exact eq_keep (a - sumMaxC cs B) (a - sumMinC cs B) cs B t ht (by omega) (by omega)
+
+/-- affine_eq never answers `entailed` -/
+theorem affineEqCore_ne_ent (cs : List Int) (a : Int) (B : Box) : (affineEqCore cs a B).1 ≠ .ent := by
+  simp only [affineEqCore]
+  split
+  · simp
+  · split
+    · simp
+    · split <;> simp
+
+theorem entailOk_affineEq : EntailOk .affineEq := by
+  intro ps B B' _ _ hrun
+  rw [runAlg_affineEq] at hrun
+  injection hrun with hrun
+  have := affineEqCore_ne_ent ps.dropLast (ps.getLastD 0) B
+  rw [hrun] at this
+  exact absurd rfl this
+
+theorem isGround_take_pointBox (t : List Int) (n : Nat) : Box.isGround ((pointBox t).take n) = true := by
+  simp only [Box.isGround, List.all_eq_true]
+  intro d hd
+  have := List.mem_of_mem_take hd
+  simp only [pointBox, List.mem_map] at this
+  obtain ⟨v, _, rfl⟩ := this
+  simp [Dom.isGround]
+
+theorem pointBox_map_fst (t : List Int) : (pointBox t).map (·.1) = t := by
+  simp [pointBox, Function.comp_def]
+
+theorem groundOk_affineEq : GroundOk .affineEq := by
+  intro ps B st B' t _ _ hrun hst hB'
+  rw [runAlg_affineEq] at hrun
+  injection hrun with hrun
+  simp only [affineEqCore] at hrun
+  simp only [relW, rel]
+  generalize ps.dropLast = cs at *
+  generalize ps.getLastD 0 = a at *
+  split at hrun
+  · injection hrun with h1 _; exact absurd h1.symm hst
+  · split at hrun
+    · injection hrun with h1 _; exact absurd h1.symm hst
+    · split at hrun
+      · injection hrun with h1 _; exact absurd h1.symm hst
+      · rename_i _ _ hg
+        injection hrun with _ h2
+        rw [h2, hB', isGround_take_pointBox, pointBox_map_fst] at hg
+        simpa using hg
+
+theorem contractMono_affineEq : ContractMono .affineEq := by
+  intro ps B B' hc hle
+  simp only [Contract] at *
+  rw [Box.le_length hle]; exact hc
+
+theorem safe_affineEq : Safe .affineEq := fun ps B _ _ => ⟨_, runAlg_affineEq ps B⟩
+
+theorem trigOk_affineEq : TrigOk .affineEq :=
+  trigOk_of_minMax .affineEq (fun _ _ _ => rfl) sound_affineEq
+
+/-! ### affine_eq performs exactly ONE round of interval reasoning on the input bounds -/
+
+/-- `Σ_{j ≠ i} minTerm c_j d_j` and `Σ_{j ≠ i} maxTerm c_j d_j` -/
+def sumMinExc : List Int → Box → Nat → Int
+  | _ :: cs, _ :: ds, 0 => sumMinC cs ds
+  | c :: cs, d :: ds, i + 1 => minTerm c d + sumMinExc cs ds i
+  | _, _, _ => 0
+def sumMaxExc : List Int → Box → Nat → Int
+  | _ :: cs, _ :: ds, 0 => sumMaxC cs ds
+  | c :: cs, d :: ds, i + 1 => maxTerm c d + sumMaxExc cs ds i
+  | _, _, _ => 0
+
+theorem sumMinC_split : ∀ (cs : List Int) (B : Box) (i : Nat), i < cs.length → i < B.length →
+    sumMinC cs B = sumMinExc cs B i + minTerm (getI cs i) (getDom B i)
+  | c :: cs, d :: ds, 0, _, _ => by simp only [sumMinC, sumMinExc, getI, getDom, List.getD_cons_zero]; omega
+  | c :: cs, d :: ds, i + 1, h1, h2 => by
+    have := sumMinC_split cs ds i (by simpa using h1) (by simpa using h2)
+    simp only [sumMinC, sumMinExc, getI, getDom, List.getD_cons_succ] at *
+    omega
+  | [], _, _, h1, _ => by simp at h1
+  | _ :: _, [], _, _, h2 => by simp at h2
+
+theorem sumMaxC_split : ∀ (cs : List Int) (B : Box) (i : Nat), i < cs.length → i < B.length →
+    sumMaxC cs B = sumMaxExc cs B i + maxTerm (getI cs i) (getDom B i)
+  | c :: cs, d :: ds, 0, _, _ => by simp only [sumMaxC, sumMaxExc, getI, getDom, List.getD_cons_zero]; omega
+  | c :: cs, d :: ds, i + 1, h1, h2 => by
+    have := sumMaxC_split cs ds i (by simpa using h1) (by simpa using h2)
+    simp only [sumMaxC, sumMaxExc, getI, getDom, List.getD_cons_succ] at *
+    omega
+  | [], _, _, h1, _ => by simp at h1
+  | _ :: _, [], _, _, h2 => by simp at h2
+
+theorem pruneWith_length (f : Int → Dom → Dom) : ∀ (cs : List Int) (B : Box),
+    (pruneWith f cs B).length = B.length
+  | [], _ => by simp [pruneWith]
+  | _ :: _, [] => by simp [pruneWith]
+  | _ :: cs, _ :: ds => by simp [pruneWith, pruneWith_length f cs ds]
+
+theorem getDom_pruneWith (f : Int → Dom → Dom) : ∀ (cs : List Int) (B : Box) (i : Nat),
+    i < cs.length → i < B.length → getDom (pruneWith f cs B) i = f (getI cs i) (getDom B i)
+  | c :: cs, d :: ds, 0, _, _ => by simp [pruneWith, getI, getDom]
+  | c :: cs, d :: ds, i + 1, h1, h2 => by
+    have := getDom_pruneWith f cs ds i (by simpa using h1) (by simpa using h2)
+    simpa [pruneWith, getI, getDom] using this
+  | [], _, _, h1, _ => by simp at h1
+  | _ :: _, [], _, _, h2 => by simp at h2
+
+theorem getDom_pruneWith_beyond (f : Int → Dom → Dom) : ∀ (cs : List Int) (B : Box) (i : Nat),
+    cs.length ≤ i → getDom (pruneWith f cs B) i = getDom B i
+  | [], _, _, _ => by simp [pruneWith]
+  | _ :: _, [], _, _ => by simp [pruneWith]
+  | _ :: _, _ :: _, 0, h => by simp at h
+  | _ :: cs, _ :: ds, i + 1, h => by
+    have := getDom_pruneWith_beyond f cs ds i (by simpa using h)
+    simpa [pruneWith, getDom] using this
+
+theorem getDom_of_le (B : Box) (i : Nat) (h : B.length ≤ i) : getDom B i = (0, 0) := by
+  simp [getDom, List.getD_eq_getElem?_getD, List.getElem?_eq_none h]
+
+/-- the box affine_eq computes before its emptiness / ground checks -/
+def eqRound (cs : List Int) (a : Int) (B : Box) : Box :=
+  pruneWith (eqPrune (a - sumMaxC cs B) (a - sumMinC cs B)) cs B
+
+/-- the three ways affine_eq fails -/
+def eqFails (cs : List Int) (a : Int) (B : Box) : Prop :=
+  (a < sumMinC cs B ∨ sumMaxC cs B < a) ∨ ¬ (eqRound cs a B).Nonempty ∨
+    (Box.isGround ((eqRound cs a B).take cs.length) = true ∧ dot cs ((eqRound cs a B).map (·.1)) ≠ a)
+
+theorem affineEqCore_cases (cs : List Int) (a : Int) (B : Box) :
+    (eqFails cs a B ∧ affineEqCore cs a B = (.inc, B)) ∨
+    (¬ eqFails cs a B ∧ affineEqCore cs a B = (.cons, eqRound cs a B)) := by
+  simp only [affineEqCore, eqFails, eqRound]
+  by_cases h1 : a - sumMaxC cs B > 0 ∨ a - sumMinC cs B < 0
+  · left; rw [if_pos h1]; exact ⟨Or.inl (by omega), rfl⟩
+  · rw [if_neg h1]
+    by_cases h2 : (pruneWith (eqPrune (a - sumMaxC cs B) (a - sumMinC cs B)) cs B).hasEmpty = true
+    · left; rw [if_pos h2]
+      refine ⟨Or.inr (Or.inl ?_), rfl⟩
+      rw [← Box.hasEmpty_eq_false_iff]; simp [h2]
+    · rw [if_neg h2]
+      have hne := (Box.hasEmpty_eq_false_iff _).mp (by simpa using h2)
+      split
+      · rename_i h3
+        left
+        simp only [Bool.and_eq_true, bne_iff_ne, ne_eq] at h3
+        exact ⟨Or.inr (Or.inr h3), rfl⟩
+      · rename_i h3
+        right
+        simp only [Bool.and_eq_true, bne_iff_ne, ne_eq] at h3
+        refine ⟨?_, rfl⟩
+        rintro (h | h | h)
+        · omega
+        · exact h hne
+        · exact h3 h
+
+/-- **affine_eq = one round of bounds reasoning on the INPUT box.**
+    With `B' = eqRound cs a B`:
+    * for a position `i` with `c_i ≠ 0`, the new domain of `x_i` is the old one cut by
+      `a − Σ_{j≠i} maxTerm c_j d_j ≤ c_i·v ≤ a − Σ_{j≠i} minTerm c_j d_j`, i.e.
+      `max(old.min, ⌈(a − Σ_{j≠i} maxTerm)/c_i⌉) .. min(old.max, ⌊(a − Σ_{j≠i} minTerm)/c_i⌋)` for
+      `c_i > 0` (and the mirrored bounds for `c_i < 0`), all sums taken over the OLD bounds `d_j`;
+    * other positions are untouched;
+    * the call fails iff `a ∉ [Σ minTerm, Σ maxTerm]`, or some new domain is empty, or the new box
+      is a point (on the constrained positions) that violates the equation; otherwise it answers
+      `consistent` with `B'`.  No second round is made: `B'` need not be a fixpoint
+      (see `affineEq_not_idempotent`). -/
+theorem affineEq_oneRound (cs : List Int) (a : Int) (B : Box) :
+    (∀ i, i < cs.length → i < B.length → getI cs i ≠ 0 → ∀ v,
+      inDom v (getDom (eqRound cs a B) i) ↔
+        inDom v (getDom B i) ∧ a - sumMaxExc cs B i ≤ getI cs i * v ∧
+          getI cs i * v ≤ a - sumMinExc cs B i) ∧
+    (∀ i, (cs.length ≤ i ∨ getI cs i = 0) → getDom (eqRound cs a B) i = getDom B i) ∧
+    (eqRound cs a B).length = B.length ∧
+    ((affineEqCore cs a B).1 = .inc ↔ eqFails cs a B) ∧
+    ((affineEqCore cs a B).1 ≠ .inc → affineEqCore cs a B = (.cons, eqRound cs a B)) ∧
+    ((affineEqCore cs a B).1 = .inc → (affineEqCore cs a B).2 = B) := by
+  refine ⟨fun i h1 h2 h0 v => ?_, fun i hi => ?_, pruneWith_length _ _ _, ?_, ?_, ?_⟩
+  · unfold eqRound
+    rw [getDom_pruneWith _ cs B i h1 h2, eqPrune_iff _ _ _ _ _ h0]
+    have := sumMinC_split cs B i h1 h2
+    have := sumMaxC_split cs B i h1 h2
+    constructor
+    · rintro ⟨h, h', h''⟩; exact ⟨h, by omega, by omega⟩
+    · rintro ⟨h, h', h''⟩; exact ⟨h, by omega, by omega⟩
+  · unfold eqRound
+    rcases hi with hi | hi
+    · exact getDom_pruneWith_beyond _ cs B i hi
+    · by_cases h1 : i < cs.length
+      · by_cases h2 : i < B.length
+        · rw [getDom_pruneWith _ cs B i h1 h2, hi]; simp [eqPrune]
+        · rw [getDom_of_le B i (by omega), getDom_of_le _ i (by rw [pruneWith_length]; omega)]
+      · exact getDom_pruneWith_beyond _ cs B i (by omega)
+  · rcases affineEqCore_cases cs a B with ⟨h, e⟩ | ⟨h, e⟩ <;> simp [e, h]
+  · rcases affineEqCore_cases cs a B with ⟨h, e⟩ | ⟨h, e⟩ <;> simp [e]
+  · rcases affineEqCore_cases cs a B with ⟨h, e⟩ | ⟨h, e⟩ <;> simp [e]
+
+/-- one round is not a fixpoint: `x + 2y = 1` on `[0,1]²` gives `x ∈ [0,1], y = 0`; only a second
+    call finds `x = 1`.  And `2x + 2y = 3` on `[0,2]²` (no solution) is first answered
+    `consistent` with `[0,1]²`, then `inconsistent`. -/
+theorem affineEq_not_idempotent :
+    affineEq [1, 2, 1] [(0, 1), (0, 1)] = (.cons, [(0, 1), (0, 0)]) ∧
+    affineEq [1, 2, 1] [(0, 1), (0, 0)] = (.cons, [(1, 1), (0, 0)]) ∧
+    affineEq [2, 2, 3] [(0, 2), (0, 2)] = (.cons, [(0, 1), (0, 1)]) ∧
+    affineEq [2, 2, 3] [(0, 1), (0, 1)] = (.inc, [(0, 1), (0, 1)]) := by decide
+
+/-- consequently `Exact` (bounds consistency + idempotence) does NOT hold for affine_eq -/
+theorem not_exact_affineEq : ¬ Exact .affineEq := by
+  intro h
+  have := (h [2, 2, 3] [(0, 2), (0, 2)] .cons [(0, 1), (0, 1)] (by simp [Contract])
+    (by simp [Box.Nonempty]) (by rw [runAlg_affineEq]; exact congrArg _ affineEq_not_idempotent.2.2.1)
+    (by decide)).2
+  obtain ⟨st', h1, h2⟩ := this
+  rw [runAlg_affineEq] at h1
+  injection h1 with h1
+  have e : affineEqCore [2, 2, 3].dropLast ([2, 2, 3].getLastD 0) [(0, 1), (0, 1)] =
+      (.inc, [(0, 1), (0, 1)]) := affineEq_not_idempotent.2.2.2
+  rw [e] at h1
+  injection h1 with h1 _
+  exact h2 h1.symm
+
 end Nucs
